@@ -97,6 +97,16 @@ pub fn check_order(obs: &ObsMap) -> Vec<Fail> {
                 continue;
             }
             seq.push((k, o.order, "node"));
+            // attributes present through a DTD default are attribute nodes of the element too
+            let mut dflt: Vec<usize> = o.attrs.iter().filter(|a| a.key.id == 0).map(|a| a.order).collect();
+            dflt.sort();
+            if dflt.iter().any(|d| *d == 0) || dflt.windows(2).any(|w| w[0] == w[1]) {
+                fails.push(Fail::new(
+                    "C14",
+                    "defaulted_attr_order_zero",
+                    format!("the attributes of {} present through DTD defaults have order keys {:?} (zero or not distinct)", k, dflt),
+                ));
+            }
             let mut attrs: Vec<(usize, Key)> = o.attrs.iter().filter(|a| a.key.id != 0).map(|a| (a.order, a.key)).collect();
             attrs.sort();
             for (ord, ak) in attrs {
